@@ -30,7 +30,9 @@ OPS = [
         c04(r is Err ==> spec_val_dec(value_tag, buf_seq(&data)) is None),
         c02(r is Ok ==> size_ok(aval(r->Ok_0))),''',
      'proofs': [{'before': 'let ipp_tag', 'text': 'proof { axiom_value_tag_from(value_tag as int); }'}]},
-    {'op': 'fn', 'path': 'IppValue::to_bytes', 'ret': 'r',
+    # loop_isolation(false): what is known before a loop (locals bound outside it) stays known inside, so that hoisting
+    # `let n = list.len();` out of the loop does not lose the proof
+    {'op': 'fn', 'path': 'IppValue::to_bytes', 'ret': 'r', 'attrs': ['#[verifier::loop_isolation(false)]'],
      'loops': {1: {'iter_name': 'it', 'spec': '''
         invariant
             *self matches IppValue::Collection(m0) && m0@ == list@,
